@@ -7,6 +7,8 @@ import (
 	"fmt"
 	"go/token"
 	"go/types"
+	"reflect"
+	"sort"
 	"strconv"
 	"strings"
 	"time"
@@ -301,4 +303,108 @@ func init() {
 	registerIntrinsic("sigs.k8s.io/controller-runtime/pkg/log.IntoContext", keepCtx)
 	registerIntrinsic("github.com/go-logr/logr.NewContext", keepCtx)
 	registerIntrinsic("k8s.io/klog/v2.NewContext", keepCtx)
+}
+
+// ---- mitchellh/hashstructure: a deterministic hash of the canonical rendering of the value ----
+// Equal values (modulo ignored fields, map order and, where requested, slice order) hash equal; distinct values hash
+// differently up to FNV collisions. The library's own reflection walk is outside the claim.
+
+func (i *interpreter) canon(t types.Type, v value, asSet bool, b *strings.Builder, depth int) {
+	if depth > 40 {
+		panic(unsupported("hashstructure: value too deep"))
+	}
+	if isSym(v) {
+		panic(unsupported("hashstructure of a symbolic value"))
+	}
+	switch u := t.Underlying().(type) {
+	case *types.Basic:
+		fmt.Fprintf(b, "%v;", v)
+	case *types.Pointer:
+		p := v.(*value)
+		if p == nil {
+			b.WriteString("nil;")
+			return
+		}
+		i.canon(u.Elem(), *p, false, b, depth+1)
+	case *types.Struct:
+		s := v.(structure)
+		b.WriteString("{")
+		for k := 0; k < u.NumFields(); k++ {
+			tag := reflect.StructTag(u.Tag(k)).Get("hash")
+			if tag == "ignore" || tag == "-" {
+				continue
+			}
+			f := u.Field(k)
+			if !f.Exported() {
+				continue // hashstructure skips unexported fields
+			}
+			b.WriteString(f.Name() + ":")
+			i.canon(f.Type(), s[k], asSet || tag == "set", b, depth+1)
+		}
+		b.WriteString("}")
+	case *types.Slice:
+		xs := v.([]value)
+		parts := make([]string, len(xs))
+		for k := range xs {
+			var eb strings.Builder
+			i.canon(u.Elem(), xs[k], asSet, &eb, depth+1)
+			parts[k] = eb.String()
+		}
+		if asSet {
+			sort.Strings(parts)
+		}
+		b.WriteString("[" + strings.Join(parts, ",") + "]")
+	case *types.Array:
+		xs := v.(array)
+		b.WriteString("[")
+		for k := range xs {
+			i.canon(u.Elem(), xs[k], asSet, b, depth+1)
+		}
+		b.WriteString("]")
+	case *types.Map:
+		m := v.(*omap)
+		var parts []string
+		if m != nil {
+			for k := range m.keys {
+				var eb strings.Builder
+				i.canon(u.Key(), m.keys[k], asSet, &eb, depth+1)
+				eb.WriteString("=>")
+				i.canon(u.Elem(), m.vals[k], asSet, &eb, depth+1)
+				parts = append(parts, eb.String())
+			}
+		}
+		sort.Strings(parts)
+		b.WriteString("map[" + strings.Join(parts, ",") + "]")
+	case *types.Interface:
+		it := v.(iface)
+		if it.t == nil {
+			b.WriteString("nil;")
+			return
+		}
+		i.canon(it.t, it.v, asSet, b, depth+1)
+	default:
+		panic(unsupported("hashstructure of %s", t))
+	}
+}
+
+func init() {
+	registerIntrinsic("github.com/mitchellh/hashstructure/v2.Hash", func(i *interpreter, fr *frame, fn *ssa.Function, a []value) value {
+		v := a[0].(iface)
+		asSet := false
+		if p, ok := a[2].(*value); ok && p != nil {
+			if opts, ok := (*p).(structure); ok && len(opts) >= 5 {
+				asSet, _ = opts[4].(bool)
+			}
+		}
+		var b strings.Builder
+		if v.t != nil {
+			i.canon(v.t, v.v, asSet, &b, 0)
+		}
+		h := uint64(14695981039346656037)
+		for _, c := range []byte(b.String()) {
+			h ^= uint64(c)
+			h *= 1099511628211
+		}
+		return tuple{h, iface{}}
+	})
 }
